@@ -42,14 +42,16 @@ CLAIMED = {
    text=("Machine-checked proofs that angularSpectrum (any magnification), oneStepFresnel, twoStepFresnel and lensAgainst, modelled pixel by "
          "pixel as written, satisfy sum|U_out|^2 d_out^2 = sum|U_in|^2 d_in^2 for every complex field on every N x N grid, every wavelength, "
          "spacing and distance of either sign (unit-modulus phase grids, Parseval of the 2-D DFT, |1/(i lambda z)|^2, |Dz1/Dz2| = 1/m); the "
-         "model is executed at binary64 against the implementation on every case; linearity is covered by the correspondence and the falsifier."),
+         "model is executed at binary64 against the implementation on every case; linearity of all four propagators (a U + b V -> a P(U) + b P(V), no side "
+         "condition) is a theorem as well."),
    ref="5 C10",
-   note="Hand model coq/model/Optics.v tied by correspondence (1e-8); Reals axioms; linearity not yet a Coq theorem; the numpy-float unit-magnification defect found by this check was repaired (289e689)."),
+   note="Hand model coq/model/Optics.v tied by correspondence (1e-8); Reals axioms; the numpy-float unit-magnification defect found by this check was repaired (289e689)."),
  "C11": dict(
    technique="Coq proof of the group laws and of lens = one-step identity over a hand model + vm_compute correspondence + numerical physics falsifier",
    text=("Machine-checked proofs that unit-magnification angular-spectrum propagation is a one-parameter group (z = 0 identity, distances add for "
-         "any split, -z undoes +z) and that lensAgainst is exactly oneStepFresnel after the thin-lens phase, for all fields and grids; the "
-         "magnified round trip, cross-propagator agreement and Gaussian-beam clauses concern the continuous Fresnel integral and are only "
+         "any split, -z undoes +z), that with magnification m propagating back with 1/m over -z returns the input times ONE constant phase (given "
+         "explicitly: it stems from the code's 1e-10 offset) and that lensAgainst is exactly oneStepFresnel after the thin-lens phase, for all fields and grids; "
+         "cross-propagator agreement and Gaussian-beam clauses concern the continuous Fresnel integral and are only "
          "tested numerically (partial); that falsifier found that twoStepFresnel returns a point-reflected field (known finding)."),
    ref="5 C11",
    note="Hand model tied by correspondence; Reals axioms; physics clauses (Gaussian beam, Airy, propagator agreement) not proved."),
@@ -95,11 +97,14 @@ CLAIMED = {
          "mirroring) with the block formulas regenerated from source; proved: the x-then-y per-sensor layout (unique decomposition of every "
          "index), that only the lower block triangle is written (any carrier), additivity over layers, the r0^(-5/3) and wavelength-product "
          "scalings for all configurations, soundness condition of the OR mirroring (with a counterexample without it), the polarisation identity "
-         "and that the xx/yy formulas instantiate it for equal diameters. Entry-wise equality with the slope covariance is FALSE for general "
-         "sensors (three known findings with witnesses); inside the guard of identical point-symmetric sensors it is checked numerically against "
-         "an independent specification. The model is run against the implementation on every configuration kind."),
+         "and that the xx/yy formulas instantiate it for equal diameters. For a phase field with the library's structure function (abstract pre-inner-product space) the scaled xx/yy/xy block formulas are proved "
+         "to be exactly the covariances of the physical finite-difference slopes, entry by entry for the matrix of one sensor and layer, and the xx "
+         "block positive semi-definite (Gram form); the three known findings are theorems too: the [x,y] block holds the covariance of the MIRRORED "
+         "sub-apertures (right exactly for point-symmetric positions), the [y_i,x_j] block needs the diameters exchanged, xx/yy are exact only for "
+         "equal diameters. Entry-wise equality for several different sensors is therefore false in general (known findings with witnesses) and is "
+         "checked numerically inside the guard against an independent specification. The model is run against the implementation on every configuration kind."),
    ref="5 C01",
-   note="Entry-wise spec equality and PSD are not Coq theorems (guarded numerical check); kv/gamma oracles; Reals axioms; probability read through second-moment algebra."),
+   note="Multi-sensor entry-wise equality and joint PSD are not Coq theorems (guarded numerical check); existence of a field with the von Karman structure function (Bochner) is a hypothesis; kv/gamma oracles; Reals axioms; probability read through second-moment algebra."),
  "C04": dict(
    technique="Coq proof (matrix algebra over R, LAPACK contracts as hypotheses) over a hand model with generated phase_covariance + stage-wise vm_compute correspondence",
    text=("Machine-checked proofs that A Cov_zz = Cov_xz (inverse contract), that A Cov_zz A^T + B B^T = Cov_xx (SVD contract, symmetry of the "
